@@ -432,6 +432,66 @@ func runC02(c *Ctx) {
 		}
 	}()
 
+	// ---- C02.compression
+	rule = "C02.compression"
+	c.R.Rule(rule, "table extraction from Connect: every ch.Compression option selects proto.CompressionEnabled together with the compress.Method of the same name (LZ4, LZ4HC, ZSTD, None), anything else selects CompressionDisabled; the compressor is constructed from that method and Client.compression from that flag")
+	func() {
+		cn := p.Func(core.PkgCh, "Connect")
+		if cn == nil {
+			return
+		}
+		tbl := switchTable(cn, func(v ssa.Value) bool { return core.IsNamed(v.Type(), core.PkgCh, "Compression") })
+		enabled, _ := constOf(p, core.PkgProto, "CompressionEnabled")
+		n := 0
+		for _, nm := range []string{"LZ4", "LZ4HC", "ZSTD", "None"} {
+			kv, ok := constOf(p, core.PkgCh, "Compression"+nm)
+			mv, ok2 := constOf(p, core.PkgCompress, nm)
+			if !ok || !ok2 {
+				c.R.Unk(rule, "Compression"+nm, cfg, "", "constant missing")
+				continue
+			}
+			blk := tbl[kv]
+			if blk == nil {
+				c.R.Bad(rule, "Compression"+nm, cfg, p.Pos(cn.Pos()), "Connect has no case for this compression option: it silently runs uncompressed")
+				continue
+			}
+			n++
+			// the phi values selected from this case block
+			okFlag, okMethod := false, false
+			for _, b := range cn.Blocks {
+				for _, in := range b.Instrs {
+					ph, isPhi := in.(*ssa.Phi)
+					if !isPhi {
+						continue
+					}
+					for i, e := range ph.Edges {
+						if b.Preds[i] != blk {
+							continue
+						}
+						k, okc := core.ConstInt(e)
+						if !okc {
+							continue
+						}
+						if core.IsNamed(ph.Type(), core.PkgProto, "Compression") && k == enabled {
+							okFlag = true
+						}
+						if core.IsNamed(ph.Type(), core.PkgCompress, "Method") && k == mv {
+							okMethod = true
+						}
+					}
+				}
+			}
+			if okFlag && okMethod {
+				c.R.Ok(rule, "Compression"+nm, cfg, p.Pos(blk.Instrs[0].Pos()), "-> CompressionEnabled, compress."+nm)
+			} else {
+				c.R.Bad(rule, "Compression"+nm, cfg, p.Pos(blk.Instrs[0].Pos()), sprintf("option Compression%s does not select (CompressionEnabled, compress.%s): enabled=%v method=%v", nm, nm, okFlag, okMethod))
+			}
+		}
+		if n < 4 {
+			c.R.Unk(rule, "table", cfg, p.Pos(cn.Pos()), sprintf("%d of 4 compression options found in Connect's switch", n))
+		}
+	}()
+
 	ruleVersionArgs(c, p, "C02.version")
 	rb := p.Method(core.PkgCompress, "Reader", "readBlock")
 	wr := p.Method(core.PkgCompress, "Writer", "Compress")
